@@ -120,6 +120,14 @@ func workerMain(checks []Check) {
 	seed, _ := strconv.ParseInt(os.Getenv("VERIF_SEED"), 10, 64)
 	w := &W{ID: id, Tier: tier, Shard: shard, N: n, Seed: seed, Thorough: tier == "thorough",
 		resume: resume, only: only, skip: skip, sets: map[string]map[string]bool{}}
+	w.Round, _ = strconv.Atoi(os.Getenv("VERIF_ROUND"))
+	if pf := os.Getenv("VERIF_PREV"); pf != "" {
+		b, err := os.ReadFile(pf)
+		if err != nil || json.Unmarshal(b, &w.Prev) != nil {
+			fmt.Fprintln(os.Stderr, "cannot read previous-round file", pf, err)
+			os.Exit(2)
+		}
+	}
 	w.rep.Fails = map[string]*FailGroup{}
 	w.rep.Counters = map[string]int64{}
 	w.rep.Sets = map[string][]string{}
@@ -152,6 +160,15 @@ type shardResult struct {
 	broken  []string
 }
 
+// HashSeed is the seed handed to the hash-seed seams of every worker (E3): fixed so that
+// every case is reproducible across processes; C07 enumerates other seeds explicitly.
+func HashSeed() string {
+	if s := os.Getenv("VERIF_HASH_SEED"); s != "" {
+		return s
+	}
+	return "1"
+}
+
 func self() string {
 	p, err := os.Executable()
 	if err != nil {
@@ -167,7 +184,7 @@ func runWorker(chk *Check, tier string, shard, n int, resume, only int64, skip [
 	}
 	cmd := exec.Command(self(), "-worker", chk.ID, tier, strconv.Itoa(shard), strconv.Itoa(n),
 		strconv.FormatInt(resume, 10), strconv.FormatInt(only, 10), strings.Join(sk, ","), progress)
-	cmd.Env = append(append(os.Environ(), "GOMAXPROCS=2", "GOMEMLIMIT=3GiB", "GOTRACEBACK=single"), env...)
+	cmd.Env = append(append(os.Environ(), "GOMAXPROCS=2", "GOMEMLIMIT=3GiB", "GOTRACEBACK=single", "VERIF_HASH_SEED="+HashSeed()), env...)
 	var out, errb bytes.Buffer
 	cmd.Stdout = &out
 	cmd.Stderr = &errb
@@ -220,7 +237,7 @@ func fatalSig(stderr string) string {
 	return "fatal|" + msg + "|" + fn
 }
 
-func runShard(chk *Check, tier string, shard, n int) *shardResult {
+func runShard(chk *Check, tier string, shard, n int, env ...string) *shardResult {
 	res := &shardResult{}
 	progress := filepath.Join(VerifDir, ".build", "run", fmt.Sprintf("%s.%s.%d.cur", chk.ID, tier, shard))
 	os.MkdirAll(filepath.Dir(progress), 0o755)
@@ -228,7 +245,7 @@ func runShard(chk *Check, tier string, shard, n int) *shardResult {
 	var resume int64
 	var skip []int64
 	for attempt := 0; attempt < 40; attempt++ {
-		rep, code, stderr := runWorker(chk, tier, shard, n, resume, -1, skip, progress)
+		rep, code, stderr := runWorker(chk, tier, shard, n, resume, -1, skip, progress, env...)
 		switch {
 		case code == 0 && rep != nil:
 			res.reports = append(res.reports, rep)
@@ -240,7 +257,7 @@ func runShard(chk *Check, tier string, shard, n int) *shardResult {
 				class = "memory"
 			}
 			sig, wit := hangSig(class, rep.Hang.Desc)
-			res.hangs = append(res.hangs, &FailGroup{Sig: sig, Class: class, N: 1, Witnesses: []string{wit}, FirstIdx: rep.Hang.Idx, Shard: shard})
+			res.hangs = append(res.hangs, &FailGroup{Sig: sig, Class: class, N: 1, Witnesses: []string{wit}, FirstIdx: rep.Hang.Idx, Shard: shard, Round: roundOf(env)})
 			resume = rep.Hang.Idx + 1
 		default:
 			// fatal crash: find the case from the progress cell
@@ -257,10 +274,10 @@ func runShard(chk *Check, tier string, shard, n int) *shardResult {
 				res.broken = append(res.broken, fmt.Sprintf("shard %d: worker exit %d: %s", shard, code, tail(stderr, 800)))
 				return res
 			}
-			desc := describe(chk, tier, shard, n, idx)
+			desc := describe(chk, tier, shard, n, idx, env...)
 			sig := fatalSig(stderr)
 			_, wit := hangSig("fatal", desc)
-			res.hangs = append(res.hangs, &FailGroup{Sig: sig, Class: "fatal", N: 1, Witnesses: []string{wit}, FirstIdx: idx, Shard: shard, Detail: tail(stderr, 600)})
+			res.hangs = append(res.hangs, &FailGroup{Sig: sig, Class: "fatal", N: 1, Witnesses: []string{wit}, FirstIdx: idx, Shard: shard, Detail: tail(stderr, 600), Round: roundOf(env)})
 			// partial results of this attempt are lost: rerun the remaining range skipping the case
 			skip = append(skip, idx)
 		}
@@ -276,9 +293,19 @@ func tail(s string, n int) string {
 	return s
 }
 
-func describe(chk *Check, tier string, shard, n int, idx int64) string {
+func roundOf(env []string) int {
+	for _, e := range env {
+		if strings.HasPrefix(e, "VERIF_ROUND=") {
+			r, _ := strconv.Atoi(e[len("VERIF_ROUND="):])
+			return r
+		}
+	}
+	return 0
+}
+
+func describe(chk *Check, tier string, shard, n int, idx int64, env ...string) string {
 	cmd := exec.Command(self(), "-worker", chk.ID, tier, strconv.Itoa(shard), strconv.Itoa(n), "0", strconv.FormatInt(idx, 10), "", "")
-	cmd.Env = append(os.Environ(), "VERIF_DESCRIBE=1", "GOMAXPROCS=2")
+	cmd.Env = append(append(os.Environ(), "VERIF_DESCRIBE=1", "GOMAXPROCS=2"), env...)
 	out, _ := cmd.Output()
 	s := strings.TrimSpace(string(out))
 	if i := strings.Index(s, "DESCRIBE "); i >= 0 {
@@ -377,23 +404,52 @@ func parent(chk *Check, tier string) int {
 	t0 := time.Now()
 	n := workersFor(chk)
 	seed, _ := strconv.ParseInt(os.Getenv("VERIF_SEED"), 10, 64)
-	results := make([]*shardResult, n)
-	var wg sync.WaitGroup
-	for s := 0; s < n; s++ {
-		wg.Add(1)
-		go func(s int) {
-			defer wg.Done()
-			results[s] = runShard(chk, tier, s, n)
-		}(s)
+	rounds := 1
+	if chk.Rounds != nil {
+		rounds = chk.Rounds(tier)
 	}
-	wg.Wait()
 	var reps []*Report
 	var broken []string
 	var extra []*FailGroup
-	for _, r := range results {
-		reps = append(reps, r.reports...)
-		broken = append(broken, r.broken...)
-		extra = append(extra, r.hangs...)
+	roundEnv := make([][]string, rounds)
+	for round := 0; round < rounds; round++ {
+		env := []string{fmt.Sprintf("VERIF_ROUND=%d", round)}
+		if round > 0 {
+			pm := merge(reps)
+			prev := map[string][]string{}
+			for k, set := range pm.sets {
+				l := make([]string, 0, len(set))
+				for x := range set {
+					l = append(l, x)
+				}
+				sort.Strings(l)
+				prev[k] = l
+			}
+			pf := filepath.Join(VerifDir, ".build", "run", fmt.Sprintf("%s.%s.prev%d.json", chk.ID, tier, round))
+			os.MkdirAll(filepath.Dir(pf), 0o755)
+			b, _ := json.Marshal(prev)
+			os.WriteFile(pf, b, 0o644)
+			env = append(env, "VERIF_PREV="+pf)
+		}
+		roundEnv[round] = env
+		results := make([]*shardResult, n)
+		var wg sync.WaitGroup
+		for s := 0; s < n; s++ {
+			wg.Add(1)
+			go func(s int) {
+				defer wg.Done()
+				results[s] = runShard(chk, tier, s, n, env...)
+			}(s)
+		}
+		wg.Wait()
+		for _, r := range results {
+			reps = append(reps, r.reports...)
+			broken = append(broken, r.broken...)
+			extra = append(extra, r.hangs...)
+		}
+		if len(broken) > 0 {
+			break
+		}
 	}
 	m := merge(reps)
 	for _, g := range extra {
@@ -454,7 +510,7 @@ func parent(chk *Check, tier string) int {
 							defer cw.Done()
 							sem <- struct{}{}
 							defer func() { <-sem }()
-							rep, code, _ := runWorker(chk, tier, g.Shard, n, 0, g.FirstIdx, nil, "", "VERIF_WD_SCALE=3")
+							rep, code, _ := runWorker(chk, tier, g.Shard, n, 0, g.FirstIdx, nil, "", append([]string{"VERIF_WD_SCALE=3"}, roundEnv[g.Round]...)...)
 							if code == 3 && rep != nil && rep.Hang != nil {
 								mu.Lock()
 								ok[i] += 2
@@ -471,7 +527,7 @@ func parent(chk *Check, tier string) int {
 					defer cw.Done()
 					sem <- struct{}{}
 					defer func() { <-sem }()
-					rep, _, _ := runWorker(chk, tier, g.Shard, n, 0, g.FirstIdx, nil, "")
+					rep, _, _ := runWorker(chk, tier, g.Shard, n, 0, g.FirstIdx, nil, "", roundEnv[g.Round]...)
 					if rep != nil && rep.Fails[g.Sig] != nil {
 						mu.Lock()
 						ok[i]++
@@ -492,7 +548,7 @@ func parent(chk *Check, tier string) int {
 		g := m.Fails[s]
 		violations++
 		path := filepath.Join(VerifDir, "replays", fmt.Sprintf("%s-%s-%d.json", chk.ID, tier, i))
-		rp := map[string]any{"property": chk.ID, "tier": tier, "shard": g.Shard, "workers": n, "idx": g.FirstIdx,
+		rp := map[string]any{"property": chk.ID, "tier": tier, "shard": g.Shard, "workers": n, "idx": g.FirstIdx, "env": roundEnv[g.Round],
 			"signature": s, "class": g.Class, "witnesses": g.Witnesses, "detail": g.Detail, "cases": g.N, "seed": seed}
 		b, _ := json.MarshalIndent(rp, "", " ")
 		os.WriteFile(path, b, 0o644)
@@ -593,17 +649,18 @@ func replay(chk *Check, path string) int {
 		return 2
 	}
 	var rp struct {
-		Tier      string `json:"tier"`
-		Shard     int    `json:"shard"`
-		Workers   int    `json:"workers"`
-		Idx       int64  `json:"idx"`
-		Signature string `json:"signature"`
+		Tier      string   `json:"tier"`
+		Shard     int      `json:"shard"`
+		Workers   int      `json:"workers"`
+		Idx       int64    `json:"idx"`
+		Signature string   `json:"signature"`
+		Env       []string `json:"env"`
 	}
 	if err := json.Unmarshal(b, &rp); err != nil {
 		fmt.Fprintln(os.Stderr, err)
 		return 2
 	}
-	rep, code, stderr := runWorker(chk, rp.Tier, rp.Shard, rp.Workers, 0, rp.Idx, nil, "")
+	rep, code, stderr := runWorker(chk, rp.Tier, rp.Shard, rp.Workers, 0, rp.Idx, nil, "", rp.Env...)
 	if rep == nil {
 		fmt.Printf("worker exit %d: %s\n", code, tail(stderr, 1000))
 		if code != 0 {
